@@ -119,6 +119,9 @@ static void shadow_write_json_file(const char *path, const ShadowFailure *fails,
 /* Forward declarations */
 static Value eval_expression(ASTNode *expr, Environment *env);
 static Value eval_statement(ASTNode *stmt, Environment *env);
+
+/* Set by eval_statement for the match it is about to evaluate */
+static bool g_match_as_statement = false;
 static Value create_dyn_array(DynArray *arr);
 
 static DynArray* eval_dyn_array_binop(DynArray *a, DynArray *b, TokenType op);
@@ -4099,6 +4102,8 @@ static Value eval_expression(ASTNode *expr, Environment *env) {
 
         case AST_MATCH: {
             /* Evaluate match expression: match status { Ok(x) => 1, Error(e) => 0 } */
+            bool as_statement = g_match_as_statement;
+            g_match_as_statement = false;  /* not inherited by matches inside this one */
             Value match_val = eval_expression(expr->as.match_expr.expr, env);
             
             if (match_val.type != VAL_UNION) {
@@ -4145,8 +4150,13 @@ static Value eval_expression(ASTNode *expr, Environment *env) {
                     }
                     env_define_var(env, binding, TYPE_STRUCT, false, binding_val);
                     
-                    /* Evaluate arm body */
-                    Value result = eval_expression(expr->as.match_expr.arm_bodies[i], env);
+                    /* Evaluate arm body.  In a match statement a block arm is a statement
+                     * block: its `return` leaves the function (the flag stays set).  In a
+                     * match expression the arm's `return` is the value of the match. */
+                    ASTNode *arm_body = expr->as.match_expr.arm_bodies[i];
+                    Value result = (as_statement && arm_body->type == AST_BLOCK)
+                        ? eval_statement(arm_body, env)
+                        : eval_expression(arm_body, env);
                     
                     /* Restore environment */
                     /* Note: Symbols added here will be leaked, but interpreter is short-lived */
@@ -4595,6 +4605,11 @@ static Value eval_statement(ASTNode *stmt, Environment *env) {
         case AST_SHADOW:
             /* Function and shadow definitions are handled at program level */
             return create_void();
+
+        case AST_MATCH:
+            /* Match used as a statement (see AST_MATCH in eval_expression) */
+            g_match_as_statement = true;
+            return eval_expression(stmt, env);
 
         default:
             /* Expression statements */
